@@ -86,6 +86,13 @@ func (v *Value) UnmarshalNBT(tagType byte, r nbt.DecoderReader) error {
 			return err
 		}
 
+		if length < 0 {
+			return errors.New("list length less than 0")
+		}
+		if t == nbt.TagEnd && length > 0 {
+			return nbt.ErrEND
+		}
+
 		v.list = v.list[:0]
 
 		for i := int32(0); i < length; i++ {
